@@ -16,6 +16,7 @@ type xarg struct {
 	param int
 	value string
 	take  int
+	omit  bool // .tm printing only: the argument is left out (filled by name propagation or the default)
 }
 
 type xpred struct {
